@@ -330,6 +330,9 @@ func toValue(value interface{}) Value {
 		// TODO Ugh.
 		return Value{}
 	case reflect.Value:
+		if !value.IsValid() {
+			return Value{} // reflect.ValueOf(nil)
+		}
 		for value.Kind() == reflect.Ptr {
 			// We were given a pointer, so we'll drill down until we get a non-pointer
 			//
